@@ -174,6 +174,35 @@ def _decimal_as_text(decimal_value, precision=DEFAULT_PRECISION):
     return "%.*f" % (precision, decimal_value)
 
 
+def _tokens_for_description(description):
+    """
+    Tokens of a range ``description`` in which "..." has already been
+    replaced by :py:const:`ELLIPSIS`. Because Python's tokenizer considers
+    the ellipsis character part of a name (for example ``1…3`` would yield
+    the name ``…3``), any ellipsis outside of a quoted text is passed to
+    the tokenizer as colon (:), which is an equivalent way to separate the
+    lower from the upper limit.
+    """
+    assert description is not None
+    text_for_tokenizer = ""
+    quote = None
+    after_backslash = False
+    for character in description:
+        if quote is None:
+            if character in "\"'":
+                quote = character
+            elif character == ELLIPSIS:
+                character = ":"
+        elif after_backslash:
+            after_backslash = False
+        elif character == "\\":
+            after_backslash = True
+        elif character == quote:
+            quote = None
+        text_for_tokenizer += character
+    return _tools.tokenize_without_space(text_for_tokenizer)
+
+
 class Range(object):
     """
     A range that can be used to validate that a value is within it.
@@ -211,7 +240,7 @@ class Range(object):
 
             name_for_code = "range"
             location = None  # TODO: Add location where range is declared.
-            tokens = _tools.tokenize_without_space(self._description)
+            tokens = _tokens_for_description(self._description)
             end_reached = False
             while not end_reached:
                 lower = None
@@ -545,7 +574,7 @@ class DecimalRange(Range):
         else:
             self._description = description.replace("...", ELLIPSIS)
             self._items = []
-            tokens = _tools.tokenize_without_space(self._description)
+            tokens = _tokens_for_description(self._description)
             end_reached = False
             max_digits_after_dot = 0
             max_digits_before_dot = 0
